@@ -1,3 +1,4 @@
+import Percival.Model.EntropyStep
 import Percival.Proofs.Entropy
 import Percival.Proofs.OsEntropy
 /-!
@@ -216,5 +217,76 @@ theorem os_entropy_failure (n : Nat) (stream : List UInt8) (as : List Model.OsEn
   refine ⟨rfl, ?_, ?_⟩ <;> simp [Model.OsEntropy.entropyRead, Model.OsEntropy.fill]
 
 example : (Model.OsEntropy.entropyRead true 5 [1, 2, 3, 4, 5, 6, 7] [.chunk 1, .chunk 0, .chunk 9]).got = [1, 2, 3, 4, 5] := by decide
+
+/-! ## The functions the executables run
+
+`pmodel drbg` applies `Model.EntropyStep.stepOp` to every parsed line, `pmodel osent` applies `osStep`; the drivers
+only parse and print. -/
+
+open Percival.Model.EntropyStep in
+/-- the two sides of the executable's state correspond: the specification's state is the abstraction of the
+model's static variables and both have the same OS answers left -/
+def ExecRel (s : Model.EntropyStep.St) : Prop := s.ref = abs s.m ∧ s.refOracle = s.mOracle
+
+open Percival.Model.EntropyStep in
+/-- **L1 = L2 on every line**: for every sequence of `ent` / `read` lines, in every `read` line the outcome the
+specification gives (what `pmodel drbg` prints before ` | `) is the outcome of the model of crypto_entropy.c
+(printed after it), and the two sides stay in correspondence. -/
+theorem exec_step_spec_eq_model (s : Model.EntropyStep.St) (h : ExecRel s) (op : Model.EntropyStep.Op) :
+    ExecRel (stepOp s op).1 ∧
+    ∀ r1 r2 m q, (stepOp s op).2 = .read r1 r2 m q → r1 = r2 := by
+  obtain ⟨h1, h2⟩ := h
+  cases op with
+  | ent x =>
+    refine ⟨⟨h1, ?_⟩, ?_⟩
+    · simp only [stepOp, h2]
+    · intro r1 r2 m q hq; simp [stepOp] at hq
+  | read n =>
+    have hr := read_refines s.m s.mOracle n
+    simp only [stepOp]
+    rw [h1, h2, ← hr]
+    rcases hm : Model.Entropy.read Cfg.source s.m s.mOracle n with ⟨r2, m', mo'⟩
+    simp only [mapSt]
+    refine ⟨⟨rfl, rfl⟩, ?_⟩
+    intro r1 r2' m q hq
+    simp only [Model.EntropyStep.Out.read.injEq] at hq
+    rw [← hq.1, ← hq.2.1]
+
+open Percival.Model.EntropyStep in
+theorem exec_run_spec_eq_model (ops : List Model.EntropyStep.Op) :
+    ExecRel (runOps {} ops).1 ∧
+    ∀ o ∈ (runOps {} ops).2, ∀ r1 r2 m q, o = .read r1 r2 m q → r1 = r2 := by
+  have init : ExecRel ({} : Model.EntropyStep.St) := ⟨rfl, rfl⟩
+  suffices H : ∀ (ops : List Model.EntropyStep.Op) (s : Model.EntropyStep.St), ExecRel s →
+      ExecRel (runOps s ops).1 ∧ ∀ o ∈ (runOps s ops).2, ∀ r1 r2 m q, o = .read r1 r2 m q → r1 = r2 from H ops {} init
+  intro ops
+  induction ops with
+  | nil => intro s hs; exact ⟨hs, fun o ho => by cases ho⟩
+  | cons op ops ih =>
+    intro s hs
+    obtain ⟨h1, h2⟩ := exec_step_spec_eq_model s hs op
+    obtain ⟨i1, i2⟩ := ih _ h1
+    refine ⟨i1, ?_⟩
+    intro o ho
+    simp only [runOps, List.mem_cons] at ho
+    rcases ho with rfl | ho
+    · exact h2
+    · exact i2 o ho
+
+open Percival.Model.EntropyStep in
+example : ((runOps {} [.ent (some (List.replicate 48 7)), .read 5]).2.map fun
+      | .read (.ok b) (.ok b') _ q => (b.length, b'.length, q)
+      | _ => (0, 0, 0)) = [(0, 0, 0), (5, 5, 0)] := by decide +kernel
+
+open Percival.Model.EntropyStep in
+/-- `pmodel osent`: on success the model stored exactly what the line shows as specified — the first `n` bytes
+of the OS stream; a failing `open` makes the call fail -/
+theorem exec_os_line (n : Nat) (stream : List UInt8) (script : List Model.OsEntropy.ReadAns) :
+    ((osStep true n stream script).ok = true → (osStep true n stream script).got = (osStep true n stream script).spec) ∧
+    (osStep false n stream script).ok = false :=
+  ⟨fun h => (os_entropy_exact n stream script h).1, (os_entropy_failure n stream script).1⟩
+
+open Percival.Model.EntropyStep in
+example : (osStep true 5 [1, 2, 3, 4, 5, 6, 7] [.chunk 1, .chunk 0, .chunk 9]).ok = true := by decide
 
 end Percival.C11
